@@ -3,7 +3,7 @@
 # applying after fix: commits.  A patch that no longer merges is reported (and left untouched).
 WT=$(mktemp -d /tmp/rs.XXXXXX)
 git -C /repo worktree add --detach "$WT" HEAD >/dev/null 2>&1 || exit 1
-for d in /verif/seeded/C*/*; do
+for d in /verif/seeded/C*/* /verif/twins/C*/*; do
   [ -f "$d/patch.diff" ] || continue
   git -C "$WT" reset -q --hard HEAD; git -C "$WT" clean -fdq
   if git -C "$WT" apply --check "$d/patch.diff" 2>/dev/null; then continue; fi
